@@ -2,10 +2,10 @@
 from __future__ import annotations
 
 from .. import calg, jmodel as J
-from ..core import AnalysisError
+from ..core import AnalysisError, norm_text
 from ..cskel import Skel
-from ..odemodel import model, Y, YDOT, FILE
-from ..valueflow import as_map, lower, match, V, show, simp, prefix_map, norm_bv
+from ..odemodel import model, Y, YDOT, FILE, not_understood
+from ..valueflow import as_map, lower, match, V, show, simp, prefix_map, norm_bv, walk
 
 EXPLANATION = (
     "Rules over the emission sites of TemplateLoader._prepare_ode_content (use-def reconstruction of every store "
@@ -16,7 +16,11 @@ EXPLANATION = (
     "with a None filter (a comprehension filter or a guarded append loop), _create_species rejects pseudo-elements and every Species is truthy "
     "(no __bool__/__len__), so the filter drops None only; R7 heating '+', cooling '-', wrapped once by "
     "(gamma-1)*(..)/kerg/npar into row n_spec, IDX_TGAS = NSPECIES; R8 each back-end RHS function pastes ode.fex "
-    "through whitespace-only filters exactly once. Decides the shape of the generator, not values.")
+    "through whitespace-only filters exactly once; R12 no function of the package edits <reaction>.reactants / .products (or an alias of "
+    "one) in place outside the reaction's own construction -- the terms are assembled from those lists after the rates were built from them; "
+    "R6 also: _create_species returns None only for empty names and exact members of the known pseudo-elements (by return paths, predicate "
+    "helpers read through). A verdict VIOLATION needs a construct the analysis reads completely; values built where it did not follow "
+    "(unreadable helpers, foreign lists, unknown filters) answer UNRECOGNISED. Decides the shape of the generator, not values.")
 ASSUMPTIONS = [
     "str.join / f-string / list semantics of Python; Jinja for-loops iterate their sequence in order",
     "species.index(x) returns the slot of x (uniqueness of slots is C09)",
@@ -39,6 +43,41 @@ def where(site):
     return (FILE, site.line)
 
 
+def flag_understood(m, v) -> bool:
+    """v is a truth value computed from the heating / cooling lists alone (len, bool, comparisons with constants, and / or / not,
+    conditional expressions): the analysis can tell whether it is "the network has a thermal process" (OdeModel.is_has_thermal)"""
+    v = simp(v)
+    if v in (m.HEAT, m.COOL) or v[0] == "const":
+        return True
+    if v[0] == "call" and v[1][0] == "global" and v[1][1] in ("len", "bool", "int", "any", "all") and not v[3]:
+        return all(flag_understood(m, a) for a in v[2])
+    if v[0] in ("list", "tuple"):
+        return all(flag_understood(m, a) for a in v[1])
+    if v[0] == "cmp":
+        return all(flag_understood(m, a) for a in v[2])
+    if v[0] == "bool":
+        return all(flag_understood(m, a) for a in v[2])
+    if v[0] == "unop":
+        return flag_understood(m, v[2])
+    if v[0] == "binop":
+        return flag_understood(m, v[2]) and flag_understood(m, v[3])
+    if v[0] in ("ifexp", "phi"):
+        return all(flag_understood(m, a) for a in v[1:4])
+    return False
+
+
+def size_understood(m, v) -> bool:
+    """v is arithmetic over the number of species, integer constants and thermal flags the analysis can read"""
+    v = simp(v)
+    if m.is_n_spec(v) or m.is_n_eqns(v) or (v[0] == "const" and isinstance(v[1], (int, bool))):
+        return True
+    if v[0] == "binop" and v[1] in ("Add", "Sub", "Mult"):
+        return size_understood(m, v[2]) and size_understood(m, v[3])
+    if v[0] == "call" and v[1] in (("global", "max"), ("global", "min")) and not v[3]:
+        return all(size_understood(m, a) for a in v[2])
+    return flag_understood(m, v)
+
+
 def site_key(site):
     return f"_prepare_ode_content:{site.array}:{site.kind}"
 
@@ -58,7 +97,16 @@ def report_problems(ctx, rule, site, allow=()):
 
 
 def guards_ok(ctx, rule, site, allowed=lambda g, pol: False):
-    bad = [(g, p) for g, p in site.fact.guards if not allowed(g, p)]
+    # (a test that the very list an enclosing loop walks is non-empty -- `if rows:` around / inside `for r in rows:` -- holds for every
+    # iteration: it is no condition on the term)
+    iters = set()
+    for lp in site.fact.loops:
+        it = simp(lp.iter)
+        iters.add(it)
+        if it[0] == "call" and it[1] in (("global", "enumerate"), ("global", "list"), ("global", "tuple")) and len(it[2]) >= 1:
+            iters.add(simp(it[2][0]))
+    lens = {("call", ("global", "len"), (it,), ()) for it in iters}
+    bad = [(g, p) for g, p in site.fact.guards if not allowed(g, p) and not (p is True and (simp(g) in iters or simp(g) in lens))]
     if bad:
         ctx.bad(rule, f"{site_key(site)}:conditional", where(site),
                 "term is emitted only under a condition: " + "; ".join(("" if p else "not ") + show(g)[:90] for g, p in bad),
@@ -91,6 +139,9 @@ def check(ctx):
             b = r or None
         if not b or b["c"][0] != "const":
             ctx.unrec("R1", "rhs-init", where(inits[0]), f"rhs is not created as n copies of a constant: {show(v)[:120]}")
+        elif b["c"] == ("const", "0.0") and not m.is_n_eqns(b["n"]) and not size_understood(m, b["n"]):
+            # a length computed somewhere the analysis does not follow is not a wrong length
+            ctx.unrec("R1", "rhs-init", where(inits[0]), f"the number of entries of rhs is not understood: {show(simp(b['n']))[:120]}")
         else:
             ctx.check(b["c"] == ("const", "0.0") and m.is_n_eqns(b["n"]), "R1", "rhs-init", where(inits[0]),
                       "rhs = ['0.0'] * n_eqns with n_eqns = max(n_spec + has_thermal, 1)",
@@ -108,7 +159,7 @@ def check(ctx):
             n_other += 1
             report_problems(ctx, "R5", s)
             if not s.problems:
-                ctx.bad("R5", f"{site_key(s)}:writer", where(s), "unclassified store into rhs")
+                ctx.unrec("R5", f"{site_key(s)}:writer", where(s), "unclassified store into rhs")
     ctx.check(True, "R5", "rhs:writers", (FILE, m.func.lineno),
               f"{len(rhs_sites)} stores into rhs classified: " + ", ".join(sorted(s.kind for s in rhs_sites))) if not n_other else None
     # stores into rhs from other functions of the module
@@ -141,6 +192,8 @@ def check(ctx):
     from .c17 import stateless_renderer
     from ..pymodel import package as _package
     stateless_renderer(ctx, _package(ctx.tree), "R11")
+    # the reactions the terms are assembled from are the input reactions: nothing edits their lists in place after construction
+    reaction_lists_frozen(ctx, "R12")
 
 
 def reaction_sites(ctx, m, r_loss="R2", r_gain="R3"):
@@ -153,12 +206,16 @@ def reaction_sites(ctx, m, r_loss="R2", r_gain="R3"):
     for name, lst, sign in (("loss", loss, -1), ("gain", gain, +1)):
         rule = r_loss if name == "loss" else r_gain
         if len(lst) != 1:
-            (ctx.bad if lst else ctx.missing)(rule, f"rhs:{name}:count", (FILE, m.func.lineno),
+            # (a store whose row list could not be identified is filed under "loss": then neither the count nor its sign says anything)
+            unfiled = any(s.role is None for s in lst)
+            (ctx.missing if not lst else ctx.unrec if unfiled else ctx.bad)(rule, f"rhs:{name}:count", (FILE, m.func.lineno),
                                                f"expected exactly one {name} store into rhs per reaction, found {len(lst)}"
                                                + ("" if not lst else " at lines " + ", ".join(str(s.line) for s in lst)))
         for s in lst:
             ok = report_problems(ctx, rule, s)
             ok &= guards_ok(ctx, rule, s)
+            if s.role is None and any(sev == "unrec" for sev, _, _ in s.problems):
+                continue
             if s.sign != sign and not any(c == "not-a-term" for _, c, _ in s.problems):
                 ctx.bad(rule, f"{site_key(s)}:sign", where(s), f"{name} term has sign {s.sign:+d}",
                         expected=f"{sign:+d}", found=s.text)
@@ -227,6 +284,35 @@ def _paired_rows(fv):
     return None
 
 
+def _compound_assignment(ctx, elt):
+    """(helper name, line, text) when the statement text `elt` is produced by a helper of TemplateLoader / of the module whose
+    string templates contain a compound assignment operator (`+=`, `-=`, `{sign}=` ...), else None"""
+    import ast
+    import re
+    from ..pymodel import package
+    pkg = package(ctx.tree)
+    for x in walk(elt):
+        if not (isinstance(x, tuple) and x and x[0] in ("meth", "call")):
+            continue
+        fn = None
+        if x[0] == "meth" and x[1] in (("param", "self"), ("param", "cls")):
+            fn = pkg.resolve("TemplateLoader", x[2])[1]
+        elif x[0] == "call" and x[1][0] == "global":
+            fn = pkg.functions.get((FILE, x[1][1]))
+        if fn is None:
+            continue
+        for n in ast.walk(fn):
+            if isinstance(n, ast.JoinedStr):
+                for i, part in enumerate(n.values):
+                    if isinstance(part, ast.Constant) and isinstance(part.value, str):
+                        after_hole = i > 0 and isinstance(n.values[i - 1], ast.FormattedValue)
+                        if re.search(r"[-+*/]=(?!=)", part.value) or (after_hole and re.match(r"=(?!=)", part.value)):
+                            return fn.name, n.lineno, ast.unparse(n)[:120]
+            elif isinstance(n, ast.Constant) and isinstance(n.value, str) and re.search(r"\w\]?\s*[-+*/]=(?!=)", n.value):
+                return fn.name, n.lineno, repr(n.value)[:120]
+    return None
+
+
 def _r4(ctx, m):
     fl = m.flow
     env = fl.env
@@ -259,11 +345,15 @@ def _r4(ctx, m):
             ctx.unrec("R4", what, (FILE, m.func.lineno), f"`{what}` not reconstructible" if what == "lhs" else "abundance symbol list `y` not reconstructible")
             continue
         bv, body, base, ifs = pm
-        ctx.check(base == m.SPEC and not ifs and body == SYM(bv), "R4", f"{what}-binding", (FILE, m.func.lineno),
-                  f"{what}[i] = '{tail.split('[')[0]}[IDX_<alias of species[i]>]' over the unfiltered species list",
-                  expected=expected, found=show(simp(lv))[:160])
+        okb = base == m.SPEC and not ifs and body == SYM(bv)
+        if not okb and (not_understood(base) or not_understood(body) or any(not_understood(c) for c in ifs)):
+            ctx.unrec("R4", f"{what}-binding", (FILE, m.func.lineno), f"how the entries of `{what}` are computed from the species list is not understood: {show(simp(lv))[:160]}")
+        else:
+            ctx.check(okb, "R4", f"{what}-binding", (FILE, m.func.lineno),
+                      f"{what}[i] = '{tail.split('[')[0]}[IDX_<alias of species[i]>]' over the unfiltered species list",
+                      expected=expected, found=show(simp(lv))[:160])
         # thermal tail
-        if cond is None:
+        if cond is None or x[0] != "const" or not (m.is_has_thermal(cond) or flag_understood(m, cond)):
             ctx.unrec("R4", f"{what}-thermal", (FILE, m.func.lineno), f"how `{what}` gets its temperature entry is not understood: {show(simp(lv))[:120]}")
         else:
             ctx.check(m.is_has_thermal(cond) and x == ("const", tail), "R4", f"{what}-thermal", (FILE, m.func.lineno),
@@ -274,13 +364,27 @@ def _r4(ctx, m):
         ctx.unrec("R4", "fex-zip", (FILE, m.func.lineno), f"how the statements pair lhs with rhs is not understood: {show(fv)[:160]}")
     else:
         ok = False
+        plain = False
         if pr:
             elt, a, b = pr
             want = ("fstr", (("fmt", ("L",), None, -1), ("const", " = "), ("fmt", ("R",), None, -1), ("const", ";")))
             ok = elt == want and b == m.RHS
-        ctx.check(ok, "R4", "fex-zip", (FILE, m.func.lineno),
-                  "fex = [f'{l} = {r};' for l, r in zip(lhs, rhs)] pairs row i of lhs with row i of rhs",
-                  found=show(fv)[:200] if fv else None)
+            # wrong only when the statement text is made of the two paired entries and literal text, and the right-hand entries are
+            # a table this function fills; anything else is a pairing that is not understood
+            plain = elt[0] == "fstr" and all(p_[0] == "const" or (p_[0] == "fmt" and p_[1] in (("L",), ("R",))) for p_ in elt[1]) and (b[0] == "acc" or a[0] == "acc")
+        comp = _compound_assignment(ctx, elt) if pr and not ok and not plain else None
+        if comp:
+            # every row is ONE statement `lhs = <the whole sum>;`: a builder that emits `lhs -= a + b` style statements changes the sign
+            # of the later terms of a chunk / splits the sum the Jacobian and the conservation argument are about
+            ctx.bad("R4", "fex-zip", (FILE, comp[1]),
+                    f"the statement builder `{comp[0]}` emits compound assignments (`lhs <op>= ...`): the row is no longer the single assignment of the accumulated sum",
+                    expected="f'{l} = {r};'", found=comp[2])
+        elif fv is None or (pr and not ok and not plain):
+            ctx.unrec("R4", "fex-zip", (FILE, m.func.lineno), f"how the statements pair lhs with rhs is not understood: {show(fv)[:160] if fv else 'fex not found'}")
+        else:
+            ctx.check(ok, "R4", "fex-zip", (FILE, m.func.lineno),
+                      "fex = [f'{l} = {r};' for l, r in zip(lhs, rhs)] pairs row i of lhs with row i of rhs",
+                      found=show(fv)[:200] if fv else None)
     # fex is what ODEContent receives
     rets = [f for f in fl.facts if f.kind == "return"]
     okret = False
@@ -332,11 +436,17 @@ def _r7(ctx, m, rhs_sites):
     for s in wraps:
         report_problems(ctx, "R7", s)
         g_ok = len(s.fact.guards) == 1 and s.fact.guards[0][1] is True and m.is_has_thermal(s.fact.guards[0][0]) and not s.fact.loops
-        ctx.check(g_ok, "R7", "rhs:wrap:guard", where(s), "wrap applied exactly once, under `if has_thermal`",
-                  found="; ".join(show(g)[:60] for g, _ in s.fact.guards))
-        ctx.check(s.row == ("tgas",), "R7", "rhs:wrap:row", where(s), "wrap rewrites row n_spec", found=str(s.row))
+        if not g_ok and any(not (m.is_has_thermal(g) or flag_understood(m, g)) for g, _ in s.fact.guards):
+            # a condition that is not a test of the heating / cooling lists: when the wrap is applied is not understood
+            ctx.unrec("R7", "rhs:wrap:guard", where(s), "the condition under which rhs[n_spec] is rewritten is not understood: "
+                      + "; ".join(show(g)[:60] for g, _ in s.fact.guards))
+        else:
+            ctx.check(g_ok, "R7", "rhs:wrap:guard", where(s), "wrap applied exactly once, under `if has_thermal`",
+                      found="; ".join(show(g)[:60] for g, _ in s.fact.guards))
+        if s.row is not None:       # (a row that is not understood has been reported with the site's problems)
+            ctx.check(s.row == ("tgas",), "R7", "rhs:wrap:row", where(s), "wrap rewrites row n_spec", found=str(s.row))
         lw = lower(s.value)
-        okw = False
+        okw = None
         try:
             holes = [h for h in lw.holes.values()]
             slot = ("sub", m.RHS, m.N_SPEC)
@@ -345,8 +455,13 @@ def _r7(ctx, m, rhs_sites):
                 okw = calg.canon_str(lw.text).equiv(calg.canon_str(f"(gamma - 1.0) * ({hn}) / kerg / npar"))
         except calg.CParseError:
             okw = False
-        ctx.check(okw, "R7", "rhs:wrap:form", where(s), "rhs[n_spec] = (gamma-1)*(rhs[n_spec])/kerg/npar",
-                  expected="(gamma - 1.0) * ( <accumulated> ) / kerg / npar", found=lw.text)
+        if okw is None:
+            # the new text is not `<literal text> <what was accumulated in this row> <literal text>`: a value built elsewhere
+            ctx.unrec("R7", "rhs:wrap:form", where(s), f"the text stored into rhs[n_spec] is not reconstructible around the accumulated terms: {lw.text[:100]} "
+                      f"with {', '.join(show(h)[:60] for h in lw.holes.values())[:160]}")
+        else:
+            ctx.check(okw, "R7", "rhs:wrap:form", where(s), "rhs[n_spec] = (gamma-1)*(rhs[n_spec])/kerg/npar",
+                      expected="(gamma - 1.0) * ( <accumulated> ) / kerg / npar", found=lw.text)
 
 
 def _numdens(ctx):
@@ -408,7 +523,11 @@ def _numdens(ctx):
     reg = ratemodel(ctx.tree).effective_registry("ThermalProcess")
     r = reg.get("particle_number_density")
     okr = r is not None and r["symbol"] == ("const", "npar") and r["value"] == ("const", "GetNumDens(y)")
-    ctx.check(okr, "R7", "npar = GetNumDens(y)", ("naunet/thermalprocess.py", r["line"] if r else 0), "the thermal wrap divides by npar = GetNumDens(y)")
+    if r is None or r["symbol"][0] != "const" or r["value"][0] != "const":
+        ctx.unrec("R7", "npar = GetNumDens(y)", ("naunet/thermalprocess.py", r["line"] if r else 0),
+                  "the registration of the particle number density (symbol / value) is not reconstructible as literals")
+    else:
+        ctx.check(okr, "R7", "npar = GetNumDens(y)", ("naunet/thermalprocess.py", r["line"] if r else 0), "the thermal wrap divides by npar = GetNumDens(y)")
 
 
 def _r6(ctx):
@@ -455,34 +574,8 @@ def _r6(ctx):
                                   found=None if ok else show(simp(fact.value))[:160])
     ctx.floor("R6", "reactant/product assignments", n_sites, 13)
     species_truthiness(ctx, "R6")
-    # _create_species returns None for pseudo-elements
-    fn = pkg.method("Component", "_create_species") and pkg.expanded("Component", "_create_species")
-    ctx.saw("naunet/component.py", "Component._create_species")
-    # by paths (any arrangement of the conditions): every path that constructs Species(name) has `name in known_pseudoelements()`
-    # false, and on the paths where it is true the function returns None
-    from ..valueflow import guards_satisfiable
-    cfl = Flow(fn, "naunet/component.py")
-    arg = ("param", fn.args.args[1].arg) if len(fn.args.args) > 1 else None
-    PSE = ("cmp", ("In",), (arg, ("meth", ("global", "Species"), "known_pseudoelements", (), ())))
-    def _paths(v, g):
-        """a returned conditional value is one return per arm"""
-        if v[0] in ("phi", "ifexp"):
-            return _paths(v[2], tuple(g) + ((v[1], True),)) + _paths(v[3], tuple(g) + ((v[1], False),))
-        return [(v, tuple(g))]
-    rets = [p_ for f in cfl.facts if f.kind == "return" for p_ in _paths(simp(f.value) if f.value else ("const", None), f.guards)]
-    makes = [(v, g) for v, g in rets if v[0] == "call" and v[1] == ("global", "Species")]
-    if not makes:
-        ctx.unrec("R6", "Component._create_species:pseudo-filter", ("naunet/component.py", fn.lineno),
-                  "no path of _create_species returns Species(<name>) directly: where the species is constructed is not understood")
-        makes = None
-    ok = bool(makes) and all(v[2] and v[2][0] == arg for v, g in makes) and all(not guards_satisfiable(g, [(PSE, True)]) for v, g in makes)
-    # on a pseudo-element path (name is a non-empty str in the list) only None can be returned
-    for v, g in rets:
-        if guards_satisfiable(g, [(PSE, True), (arg, True), (("call", ("global", "isinstance"), (arg, ("global", "Species")), ()), False)]) and v != ("const", None):
-            ok = False
-    if makes is not None:
-        ctx.check(ok, "R6", "Component._create_species:pseudo-filter", ("naunet/component.py", fn.lineno),
-                  "Species(..) is constructed only for names not in Species.known_pseudoelements(); otherwise None is returned")
+    pseudo_filter(ctx, "R6")
+    _paths = _return_paths
     # the list consulted is the CONFIGURED pseudo-element list whenever any list was configured
     kp = pkg.method("Species", "known_pseudoelements") and pkg.expanded("Species", "known_pseudoelements")
     ctx.saw("naunet/species.py", "Species.known_pseudoelements")
@@ -531,6 +624,83 @@ def _r6(ctx):
               found="; ".join(f"{show(v)[:40]} if {[('' if p else 'not ') + show(g)[:60] for g, p in gs]}" for v, gs in rets))
 
 
+def _return_paths(v, g):
+    """a returned conditional value is one return per arm"""
+    if v[0] in ("phi", "ifexp"):
+        return _return_paths(v[2], tuple(g) + ((v[1], True),)) + _return_paths(v[3], tuple(g) + ((v[1], False),))
+    return [(v, tuple(g))]
+
+
+def pseudo_filter(ctx, rule):
+    """Component._create_species is the one gate between the names of a reaction and its reactant / product lists (rule shared with
+    C04).  By return paths, whatever the arrangement of the conditions and the helpers they were moved into: (a) Species(name) is
+    constructed only for names that are not in Species.known_pseudoelements(), and on a pseudo-element path only None comes back;
+    (b) nothing ELSE is dropped: a path that returns None for a non-empty name that is NOT in the known pseudo-elements removes a
+    real species from the reaction (its terms lose a factor, its own equation loses the term, elements and charge are not conserved)."""
+    from ..pymodel import package
+    from ..valueflow import Flow, guards_satisfiable, _bool_atoms
+    pkg = package(ctx.tree)
+    F = "naunet/component.py"
+    fn = pkg.method("Component", "_create_species") and pkg.expanded("Component", "_create_species")
+    ctx.saw(F, "Component._create_species")
+    # predicate helpers the test was moved into (a method of the class, a function of the module) are read as the condition they return
+    cfl = Flow(fn, F, func_resolver=lambda name: pkg.functions.get((F, name)),
+               resolver=lambda name: (pkg.resolve("Component", name)[1] if name != "_create_species" else None))
+    arg = ("param", fn.args.args[1].arg) if len(fn.args.args) > 1 else None
+    KP = ("meth", ("global", "Species"), "known_pseudoelements", (), ())
+    rets = [p_ for f in cfl.facts if f.kind == "return" for p_ in _return_paths(simp(f.value) if f.value else ("const", None), f.guards)]
+    # (membership in set(L) / frozenset(L) / list(L) / tuple(L) of the known list is membership in the list)
+    from ..valueflow import subst as _subst
+    views = {("call", ("global", f_), (KP,), ()): KP for f_ in ("set", "frozenset", "list", "tuple")}
+    rets = [(v, tuple((simp(_subst(simp(c), views)), p_) for c, p_ in g)) for v, g in rets]
+    makes = [(v, g) for v, g in rets if v[0] == "call" and v[1] == ("global", "Species")]
+    key = "Component._create_species:pseudo-filter"
+    if not makes:
+        ctx.unrec(rule, key, (F, fn.lineno), "no path of _create_species returns Species(<name>) directly: where the species is constructed is not understood")
+        return
+    names = {v[2][0] if v[2] else None for v, g in makes}
+    N = next(iter(names))
+    # the name looked up may be the argument with surrounding blanks removed
+    stripped = (("meth", arg, "strip", (), ()), ("ifexp", arg, ("meth", arg, "strip", (), ()), arg), ("phi", arg, ("meth", arg, "strip", (), ()), arg))
+    if len(names) != 1 or N is None or (N != arg and N not in stripped):
+        ctx.unrec(rule, key, (F, fn.lineno), "the species is not constructed from the name handed in: " + "; ".join(show(n)[:60] if n else "?" for n in names))
+        return
+    PSE = ("cmp", ("In",), (N, KP))
+    ISS = ("call", ("global", "isinstance"), (arg, ("global", "Species")), ())
+    real = [(N, True), (arg, True), (ISS, False)]
+    ok = all(not guards_satisfiable(g, [(PSE, True)]) for v, g in makes)
+    # on a pseudo-element path (name is a non-empty str in the list) only None can be returned
+    for v, g in rets:
+        if guards_satisfiable(g, [(PSE, True)] + real) and v != ("const", None):
+            ok = False
+    ctx.check(ok, rule, key, (F, fn.lineno),
+              "Species(..) is constructed only for names not in Species.known_pseudoelements(); otherwise None is returned")
+    # (b) a non-empty name that is not a known pseudo-element is never dropped
+    key = "Component._create_species:drops-pseudo-only"
+    drops = [(v, g) for v, g in rets if v[0] == "const" and not v[1] and guards_satisfiable(g, [(PSE, False)] + real)]
+    if not drops:
+        ctx.ok(rule, key, (F, fn.lineno), "None is returned only for empty names and names in Species.known_pseudoelements()")
+        return
+    base = set()
+    for c, _ in [(PSE, True)] + real:
+        _bool_atoms(simp(c), base)
+    extra = set()
+    for v, g in drops:
+        for c, _ in g:
+            _bool_atoms(simp(c), extra)
+    extra -= base
+    from ..valueflow import subst
+    unread = [x for x in extra if not_understood(subst(x, {KP: ("const", "<known pseudo-elements>")}))]        # (the list itself is understood)
+    if unread:
+        ctx.unrec(rule, key, (F, fn.lineno), "a name may be dropped under a condition the analysis cannot read: " + "; ".join(show(x)[:80] for x in unread)[:240])
+    else:
+        ctx.bad(rule, key, (F, fn.lineno),
+                "_create_species returns None for a non-empty name that is NOT in Species.known_pseudoelements() (when " + "; ".join(show(x)[:80] for x in sorted(extra, key=repr))[:300]
+                + "): a real species is silently removed from the reactants / products, its reactions lose a factor and a term, elements and charge are not conserved",
+                expected="None only for empty names and exact members of Species.known_pseudoelements()",
+                found="; ".join("return None if " + " and ".join(("" if p else "not ") + show(simp(c))[:100] for c, p in g) for v, g in drops)[:400])
+
+
 def species_truthiness(ctx, rule):
     """The `if self._create_species(x)` filters are meant to drop None only: every Species instance must be truthy.  Python takes the
     truth of an object from __bool__, else from __len__ != 0 -- a Species class (or base) that defines either can make a real
@@ -570,6 +740,16 @@ def _filtered_create(v, fl=None):
     def is_create(x):
         return x[0] == "meth" and x[1] == ("param", "self") and x[2] == "_create_species"
 
+    def keeps(x):
+        """the guards that keep exactly the created species and drop None: `if x`, `if x is not None`, `if x != None`"""
+        none = ("const", None)
+        return [(x, True), (("cmp", ("Is",), (x, none)), False), (("cmp", ("Eq",), (x, none)), False)]
+
+    def bypass(x):
+        """wrong for certain: the species is constructed directly (no pseudo-element filter at all); any other producer (a wrapper
+        of _create_species, a lookup) is a shape that is not understood"""
+        return x[0] == "call" and x[1] == ("global", "Species")
+
     if v[0] in ("ifexp", "phi"):
         a, wa = _filtered_create(v[2], fl)
         b, wb = _filtered_create(v[3], fl)
@@ -586,22 +766,110 @@ def _filtered_create(v, fl=None):
         for f in apps:
             val = simp(f.value)
             if not is_create(val):
-                return False, "elements are not produced by self._create_species(..)"
+                return (False if bypass(val) else None), "elements are not produced by self._create_species(..)"
             conds = [g for gd in f.guards for g in split_guard((simp(gd[0]), gd[1]))]
-            if (val, True) not in conds:
-                return False, "no truthiness filter on the created species: a marker token would enter the list as None"
+            if not any(c in conds for c in keeps(val)):
+                # (guards that mention the created species in another way are a filter that is not understood)
+                return (None if any(val in list(walk(c)) for c, _ in conds) else False), "no truthiness filter on the created species: a marker token would enter the list as None"
         return True, ""
     m = as_map(v) if v[0] in ("comp", "copy") else None
+    if m is None or not is_create(m[1]):
+        # the created species pass through a container that identifies equal keys: a reactant named twice (H + H) is kept once
+        for x in walk(v):
+            if isinstance(x, tuple) and x and ((x[0] == "comp" and x[1] in ("dict", "set")) or (x[0] == "call" and x[1] in (("global", "set"), ("global", "frozenset")))
+                                              or (x[0] in ("call", "meth") and "fromkeys" in (x[2] if x[0] == "meth" else str(x[1])))) \
+                    and any(is_create(y) for y in walk(v) if isinstance(y, tuple) and y):
+                return False, "the created species are collected in a dict / set keyed by the name: a species that occurs twice in the list (H + H -> H2) is kept once"
     if m is None:
         return None, f"reactant/product list assigned from an unrecognised expression"
     bv, body, base, ifs = m
     if not is_create(body):
-        return False, "elements are not produced by self._create_species(..)"
+        return (False if bypass(body) else None), "elements are not produced by self._create_species(..)"
     # `if a and b` is `if a if b`
     conds = [g for c in ifs for g in split_guard((simp(c), True))]
-    if (body, True) not in conds:
-        return False, "no truthiness filter on the created species: a marker token would enter the list as None"
+    if not any(c in conds for c in keeps(body)):
+        return (None if any(body in list(walk(c)) for c, _ in conds) else False), "no truthiness filter on the created species: a marker token would enter the list as None"
     return True, ""
+
+
+_LIST_EDITS = {"append", "extend", "insert", "remove", "pop", "clear", "__delitem__", "__setitem__", "__iadd__", "__imul__"}
+
+
+def reaction_lists_frozen(ctx, rule):
+    """The ODE terms are assembled from `react.reactants` / `react.products` AFTER the rate expressions were built from the same
+    objects: the law emitted is the law of the input network only if nothing edits those lists in place once a reaction is
+    constructed.  Wrong for certain: a list-editing call / item store / `del` / `+=` on `<x>.reactants` / `<x>.products` -- or on a
+    local that is an ALIAS of one (`lst = reac.reactants`, no copy) -- where <x> is not the object under construction (`self` inside
+    the reaction classes' own methods that are not rate builders).  A copy (`list(..)`, `[..]`, slicing, `.copy()`) may be edited freely.
+    (Rule shared with C04.)"""
+    import ast
+    from ..pymodel import package
+    pkg = package(ctx.tree)
+    ATTRS = ("reactants", "products")
+    n_funcs = n_reads = 0
+
+    def list_attr(e):
+        return isinstance(e, ast.Attribute) and e.attr in ATTRS
+
+    def owner_self(e, fn, cls):
+        """`self.reactants` inside a method of a reaction-like class that builds the object (not a rate / format method)"""
+        return isinstance(e.value, ast.Name) and fn.args.args and e.value.id == fn.args.args[0].arg and cls is not None \
+            and not (fn.name.startswith("rate") or fn.name in ("__format__", "__str__", "__repr__", "__eq__", "__hash__", "__lt__"))
+
+    todo = [(ci.file, ci.name, fn) for ci in pkg.classes.values() for fn in ci.methods.values()] + [(f, None, fn) for (f, _), fn in pkg.functions.items()]
+    for file, cls, fn in todo:
+        n_funcs += 1
+        aliases = {}
+        for st in ast.walk(fn):
+            if isinstance(st, ast.Assign) and len(st.targets) == 1 and isinstance(st.targets[0], ast.Name):
+                v = st.value
+                alts = [v]
+                if isinstance(v, ast.IfExp):
+                    alts = [v.body, v.orelse]
+                elif isinstance(v, ast.BoolOp):
+                    alts = list(v.values)
+                for a in alts:
+                    if list_attr(a) and not owner_self(a, fn, cls):
+                        aliases[st.targets[0].id] = a
+        # a name re-bound to anything else as well is still an alias on some path: kept (the edit is judged where it stands)
+
+        def target(e):
+            """the reaction list an expression denotes by identity: the attribute itself or an alias of it"""
+            if list_attr(e) and not owner_self(e, fn, cls):
+                return ast.unparse(e)
+            if isinstance(e, ast.Name) and e.id in aliases:
+                return f"{e.id} (= {ast.unparse(aliases[e.id])})"
+            return None
+        # (a local bound more than once may hold a copy by the time it is edited: no verdict on those)
+        stores = {}
+        for x in ast.walk(fn):
+            if isinstance(x, ast.Name) and isinstance(x.ctx, ast.Store):
+                stores[x.id] = stores.get(x.id, 0) + 1
+        aliases = {k: v for k, v in aliases.items() if stores.get(k, 0) == 1}
+        hits = []
+        for n in ast.walk(fn):
+            if isinstance(n, ast.Attribute) and n.attr in ATTRS:
+                n_reads += 1
+            if isinstance(n, ast.Call) and isinstance(n.func, ast.Attribute) and n.func.attr in _LIST_EDITS and target(n.func.value):
+                hits.append((n, f"{target(n.func.value)}.{n.func.attr}(..)"))
+            elif isinstance(n, (ast.Assign, ast.AugAssign, ast.Delete)):
+                for t in (n.targets if isinstance(n, (ast.Assign, ast.Delete)) else [n.target]):
+                    if isinstance(t, ast.Subscript) and target(t.value):
+                        hits.append((n, ast.unparse(n)[:80]))
+                    elif isinstance(n, ast.AugAssign) and isinstance(n.op, (ast.Add, ast.Mult)) and isinstance(t, ast.Name) and t.id in aliases:
+                        hits.append((n, ast.unparse(n)[:80]))
+                    elif isinstance(n, ast.AugAssign) and isinstance(n.op, (ast.Add, ast.Mult)) and list_attr(t) and not owner_self(t, fn, cls):
+                        hits.append((n, ast.unparse(n)[:80]))
+        for n, what in hits:
+            ctx.bad(rule, f"{cls + '.' if cls else ''}{fn.name}:edits-reaction-list:{norm_text(what)[:60]}", (file, n.lineno),
+                    f"`{what}` edits the reactant / product list of a reaction object in place (no copy): every later reader -- the ODE terms of "
+                    "_prepare_ode_content are assembled after the rates -- sees a reaction that is not the input reaction (a reactant factor and its loss term vanish)",
+                    expected="a copy: list(reac.reactants) / reac.reactants.copy() / a comprehension", found=what)
+    ctx.floor(rule, "functions scanned for in-place edits of reaction lists", n_funcs, 100)
+    ctx.floor(rule, "reads of .reactants / .products", n_reads, 40)
+    if not any(o.rule == rule and "edits-reaction-list" in o.key for o in ctx.obs):
+        ctx.ok(rule, "reaction-lists-frozen", ("naunet/reactions/reaction.py", 0),
+               f"no function of the package edits <reaction>.reactants / .products (or an alias) in place outside the reaction's own construction ({n_funcs} functions, {n_reads} reads)")
 
 
 def rhs_writers(ctx, rule):
@@ -629,7 +897,8 @@ def _r8(ctx):
     for label, rel, cfg, fname in CONFIGS:
         ctx.saw(rel)
         # (`{% set %}` variables and the parameters of expanded macros are read as the expressions they stand for)
-        items = J.propagate_sets(J.flatten(ctx.tree, rel, cfg))
+        # ... and a loop over a chain of one-to-one `map` filters is the loop over the base sequence with the filters applied to its variable
+        items = J.unmap_loops(J.propagate_sets(J.flatten(ctx.tree, rel, cfg)))
         sk = Skel(items)
         if not sk.func(fname):
             ctx.missing("R8", f"{label}:{fname}", (rel, 0), f"function {fname} not found in the specialised template")
@@ -639,6 +908,11 @@ def _r8(ctx):
         key = f"{label}:{fname}:for ode.fex"
         if not loops and any(x == FEXSEQ for it_, off in sk.items_in(fname) for x in _subterms(it_)):
             ctx.unrec("R8", key, (rel, 0), f"{fname} uses ode.fex, but not in a `for eq in ode.fex` loop: how the equations are pasted is not understood")
+            continue
+        if not loops:
+            # ode.fex is not mentioned inside the function: pasted through something the analysis does not follow (an include, a
+            # variable bound outside the function): the anchor is gone, which is not evidence of a missing equation
+            ctx.missing("R8", key, (rel, 0), f"{fname} does not mention ode.fex: where the equations are pasted is not found")
             continue
         if len(loops) != 1:
             ctx.bad("R8", key, (rel, loops[0][0][5] if loops else 0),
@@ -670,13 +944,35 @@ def _r8(ctx):
                 opaque |= {x[1] for x in ([b[1]] + list(b[1][1] if b[1][0] in ("tuple", "list") else ())) if x[0] == "name"}
             else:
                 body.append(b)
+        # an output that stands inside a `// ...` line comment (between the `//` and the next line break of the template text) is
+        # part of the comment, not of the code
+        in_comment, kept = False, []
+        for b in body:
+            if b[0] == "text":
+                tail = b[1].rsplit("\n", 1)[-1] if "\n" in b[1] else b[1]
+                in_comment = ("//" in tail) or (in_comment and "\n" not in b[1])
+                kept.append(b)
+            elif b[0] == "out" and in_comment:
+                kept.append(("text", "", b[2]) if len(b) > 2 else ("text", ""))
+            else:
+                kept.append(b)
+        body = kept
         outs = [b for b in body if b[0] == "out"]
         others = [b for b in body if b[0] not in ("out", "text")]
         if len(outs) == 1 and not others and any(isinstance(x, tuple) and x[:1] == ("name",) and x[1] in opaque for x in _subterms(outs[0][1])):
             ctx.unrec("R8", key, (rel, it[5]), f"the pasted value {J.show(outs[0][1])} is bound by a `set` form the analysis does not follow")
             continue
-        texts = "".join(b[1] for b in body if b[0] == "text").strip()
-        if len(outs) != 1 or others or texts:
+        import re as _re
+        # C comments and blanks between the statements are layout
+        texts = _re.sub(r"/\*.*?\*/|//[^\n]*", "", "".join(b[1] for b in body if b[0] == "text"), flags=_re.S).strip()
+        # ... and so is an output of constant blanks / line breaks
+        outs = [b for b in outs if not (b[1][0] == "const" and isinstance(b[1][1], str) and not b[1][1].strip())]
+        foreign = [b for b in outs if not any(x == var for x in _subterms(b[1]))]
+        if others or foreign:
+            # conditional / nested printing, or an output of something else than the equation, inside the loop: not understood
+            ctx.unrec("R8", key, (rel, it[5]), f"the body of the loop over ode.fex has {len(others)} control node(s) and {len(foreign)} output(s) that do not print the equation: how the statements are pasted is not understood")
+            continue
+        if len(outs) != 1 or texts:
             ctx.bad("R8", key, (rel, it[5]), "loop body must output the equation and nothing else",
                     found=f"{len(outs)} outputs, {len(others)} control nodes, text {texts[:40]!r}")
             continue
@@ -684,6 +980,7 @@ def _r8(ctx):
         good = e == var
         detail = []
         reps = []
+        unknown = []
         for name, args, kw in fs:
             if name in WS_FILTERS:
                 # break_long_words=False lives in utilities._stmwrap (checked below)
@@ -695,6 +992,7 @@ def _r8(ctx):
                 reps.append((args[0][1], args[1][1]))
                 continue
             good = False
+            unknown.append(name)
             detail.append(f"filter {name} may alter the equation text")
         if label.endswith("cusparse"):
             want = {("ydot[IDX", "ydot[yistart + IDX"), ("y[IDX", "y_cur[IDX")}
@@ -711,9 +1009,16 @@ def _r8(ctx):
         elif reps:
             good = False
             detail.append(f"unexpected replace filters {reps}")
-        ctx.check(good, "R8", key, (rel, outs[0][2]),
-                  f"{fname} outputs each ode.fex entry once through whitespace-only filters" if good else "; ".join(detail),
-                  found=J.show(outs[0][1]))
+        if e != var and not any(x == var for x in _subterms(e)):
+            # the output does not mention the loop variable at all: what is pasted is not understood
+            ctx.unrec("R8", key, (rel, outs[0][2]), f"the loop over ode.fex outputs {J.show(outs[0][1])[:120]}, not its own variable")
+        elif unknown and len(detail) == len(unknown):
+            # a filter the analysis has no model of (not naunet's layout filters, not `replace`): whether it alters the text is not known
+            ctx.unrec("R8", key, (rel, outs[0][2]), "the equation passes through filter(s) the analysis has no model of: " + ", ".join(unknown))
+        else:
+            ctx.check(good, "R8", key, (rel, outs[0][2]),
+                      f"{fname} outputs each ode.fex entry once through whitespace-only filters" if good else "; ".join(detail),
+                      found=J.show(outs[0][1]))
         n += 1
     ctx.floor("R8", "back-end RHS functions", n, 4)
     # _stmwrap never breaks inside a token
@@ -798,6 +1103,21 @@ MUTANTS = [
     {"name": "species-len-makes-electron-falsy", "file": "naunet/species.py", "old": "    def __hash__(self) -> int:\n", "new": "    def __len__(self) -> int:\n        return len(self.element_count)\n\n    def __hash__(self) -> int:\n", "rules": ["R6"]},
     {"name": "lhs-sorted", "file": T, "old": 'lhs = [f"ydot[IDX_{x.alias}]" for x in species]', "new": 'lhs = [f"ydot[IDX_{x.alias}]" for x in sorted(species)]', "rules": ["R4"]},
     {"name": "create-species-no-filter", "file": "naunet/reactions/reaction.py", "old": "[self._create_species(r) for r in reactants if self._create_species(r)]", "new": "[self._create_species(r) for r in reactants]", "rules": ["R6"]},
+    {"name": "rate-builder-strips-grain-through-alias", "file": "naunet/grains/hh93grain.py", "old": "        [spec] = [s for s in reac.reactants if not s.is_grain]\n", "new": "        others = reac.reactants\n        others.remove(next(s for s in others if s.is_grain))\n        [spec] = others\n", "rules": ["R12"]},
+    {"name": "create-species-drops-lowercase-names", "file": "naunet/component.py", "old": "if species_name and species_name not in Species.known_pseudoelements():", "new": "if species_name and species_name not in Species.known_pseudoelements() and not species_name.islower():", "rules": ["R6"]},
+    {"name": "thermal-reactants-through-dict", "file": "naunet/thermalprocess.py", "old": "        self._reactants = [\n            self._create_species(r) for r in reactants if self._create_species(r)\n        ]\n", "new": "        created = {r: self._create_species(r) for r in reactants}\n        self._reactants = [spec for spec in created.values() if spec is not None]\n", "rules": ["R6"]},
+    {"name": "helper-object-loss-sign", "edits": [
+        {"file": T, "old": "# define in this file to avoid circular import\n", "new": "class _Tables:\n    def __init__(self, n):\n        self.n = n\n        self.rhs = [\"0.0\"] * n\n        self.jac = [\"0.0\"] * n * n\n\n    def add(self, row, text):\n        self.rhs[row] += text\n\n\n# define in this file to avoid circular import\n", "count": 1},
+        {"file": T, "old": '        rhs = ["0.0"] * n_eqns\n        jacrhs = ["0.0"] * n_eqns * n_eqns\n', "new": '        tabs = _Tables(n_eqns)\n        rhs = tabs.rhs\n        jacrhs = tabs.jac\n'},
+        {"file": T, "old": 'rhs[specidx] += f" - {rate_sym}[{rl}]*{rsym_mul}"', "new": 'tabs.add(specidx, f" + {rate_sym}[{rl}]*{rsym_mul}")'}], "rules": ["R2"]},
+    {"name": "term-lists-gain-sign", "edits": [
+        {"file": T, "old": '        rhs = ["0.0"] * n_eqns\n', "new": '        rhsparts = [["0.0"] for _ in range(n_eqns)]\n'},
+        {"file": T, "old": 'rhs[specidx] += f" - {rate_sym}[{rl}]*{rsym_mul}"', "new": 'rhsparts[specidx].append(f" - {rate_sym}[{rl}]*{rsym_mul}")'},
+        {"file": T, "old": 'rhs[specidx] += f" + {rate_sym}[{rl}]*{rsym_mul}"', "new": 'rhsparts[specidx].append(f" - {rate_sym}[{rl}]*{rsym_mul}")'},
+        {"file": T, "old": 'rhs[sidx] += f" + ({fact}) * {depsym_mul}"', "new": 'rhsparts[sidx].append(f" + ({fact}) * {depsym_mul}")'},
+        {"file": T, "old": 'rhs[n_spec] += f" + {hrate_sym}[{hidx}] * {rsym_mul}"', "new": 'rhsparts[n_spec].append(f" + {hrate_sym}[{hidx}] * {rsym_mul}")'},
+        {"file": T, "old": 'rhs[n_spec] += f" - {crate_sym}[{cidx}] * {rsym_mul}"', "new": 'rhsparts[n_spec].append(f" - {crate_sym}[{cidx}] * {rsym_mul}")'},
+        {"file": T, "old": '        lhs = [f"ydot[IDX_{x.alias}]" for x in species]\n', "new": '        rhs = ["".join(parts) for parts in rhsparts]\n        lhs = [f"ydot[IDX_{x.alias}]" for x in species]\n'}], "rules": ["R3"]},
     {"name": "tgas-macro", "file": "naunet/templates/base/cpp/include/naunet_macros.h.j2", "old": "#define IDX_TGAS NSPECIES", "new": "#define IDX_TGAS NEQUATIONS", "rules": ["R4"]},
 ]
 BENIGN = [
@@ -836,5 +1156,32 @@ BENIGN = [
     {"name": "fex-pasted-by-macro", "edits": [
         {"file": TEMPLATES["cvode"], "old": "#include <math.h>\n", "new": '{% macro paste(eqs, width, indent) %}{% for line in eqs -%}\n        {{ line | stmwrap(width, indent) }}\n    {% endfor %}{% endmacro %}\n#include <math.h>\n', "count": 1},
         {"file": TEMPLATES["cvode"], "old": "    {% for eq in ode.fex -%}\n        {{ eq | stmwrap(80, 8) }}\n    {% endfor %}\n", "new": "    {{ paste(ode.fex, 80, 8) }}\n"}]},
+    {"name": "rate-builder-edits-a-copy", "file": "naunet/grains/hh93grain.py", "old": "        [spec] = [s for s in reac.reactants if not s.is_grain]\n", "new": "        others = list(reac.reactants)\n        others.remove(next(s for s in others if s.is_grain))\n        [spec] = others\n"},
+    {"name": "create-species-predicate-helper", "edits": [
+        {"file": "naunet/component.py", "old": "if species_name and species_name not in Species.known_pseudoelements():", "new": "if species_name and not _is_pseudo(species_name):"},
+        {"file": "naunet/component.py", "old": "class Component:\n", "new": "def _is_pseudo(name):\n    known = Species.known_pseudoelements()\n    if name in known:\n        return True\n    return False\n\n\nclass Component:\n", "count": 1}]},
+    {"name": "wrap-by-module-function", "edits": [
+        {"file": T, "old": "# define in this file to avoid circular import\n", "new": "def _to_temperature_rate(expr):\n    return f\"(gamma - 1.0) * ( {expr} ) / kerg / npar\"\n\n\n# define in this file to avoid circular import\n", "count": 1},
+        {"file": T, "old": 'rhs[n_spec] = f"(gamma - 1.0) * ( {rhs[n_spec]} ) / kerg / npar"', "new": "rhs[n_spec] = _to_temperature_rate(rhs[n_spec])"}]},
+    {"name": "fex-loop-over-map-pipeline", "file": TEMPLATES["cvode"], "old": "    {% for eq in ode.fex -%}\n        {{ eq | stmwrap(80, 8) }}\n    {% endfor %}\n", "new": "    {% for stm in ode.fex | map(\"stmwrap\", 80, 8) -%}\n        {{ stm }}\n    {% endfor %}\n"},
+    {"name": "reactants-filter-is-not-none", "file": 'naunet/reactions/reaction.py', "old": '        self.reactants = [\n            self._create_species(r.strip())\n            for r in rps[0:3]\n            if self._create_species(r.strip())\n        ]\n', "new": '        self.reactants = [\n            self._create_species(r.strip())\n            for r in rps[0:3]\n            if self._create_species(r.strip()) is not None\n        ]\n'},
+    {"name": "fex-loop-with-comment", "file": TEMPLATES["cvode"], "old": "    {% for eq in ode.fex -%}\n        {{ eq | stmwrap(80, 8) }}\n    {% endfor %}\n", "new": "    {% for eq in ode.fex -%}\n        // equation {{ loop.index0 }}\n        {{ eq | stmwrap(80, 8) }}\n    {% endfor %}\n"},
+    {"name": "rhs-table-in-helper-object", "edits": [
+        {"file": T, "old": "# define in this file to avoid circular import\n", "new": "class _Tables:\n    def __init__(self, n):\n        self.n = n\n        self.rhs = [\"0.0\"] * n\n        self.jac = [\"0.0\"] * n * n\n\n    def add(self, row, text):\n        self.rhs[row] += text\n\n\n# define in this file to avoid circular import\n", "count": 1},
+        {"file": T, "old": '        rhs = ["0.0"] * n_eqns\n        jacrhs = ["0.0"] * n_eqns * n_eqns\n', "new": '        tabs = _Tables(n_eqns)\n        rhs = tabs.rhs\n        jacrhs = tabs.jac\n'},
+        {"file": T, "old": 'rhs[specidx] += f" - {rate_sym}[{rl}]*{rsym_mul}"', "new": 'tabs.add(specidx, f" - {rate_sym}[{rl}]*{rsym_mul}")'}]},
+    {"name": "rhs-term-lists-joined", "edits": [
+        {"file": T, "old": '        rhs = ["0.0"] * n_eqns\n', "new": '        rhsparts = [["0.0"] for _ in range(n_eqns)]\n'},
+        {"file": T, "old": 'rhs[specidx] += f" - {rate_sym}[{rl}]*{rsym_mul}"', "new": 'rhsparts[specidx].append(f" - {rate_sym}[{rl}]*{rsym_mul}")'},
+        {"file": T, "old": 'rhs[specidx] += f" + {rate_sym}[{rl}]*{rsym_mul}"', "new": 'rhsparts[specidx].append(f" + {rate_sym}[{rl}]*{rsym_mul}")'},
+        {"file": T, "old": 'rhs[sidx] += f" + ({fact}) * {depsym_mul}"', "new": 'rhsparts[sidx].append(f" + ({fact}) * {depsym_mul}")'},
+        {"file": T, "old": 'rhs[n_spec] += f" + {hrate_sym}[{hidx}] * {rsym_mul}"', "new": 'rhsparts[n_spec].append(f" + {hrate_sym}[{hidx}] * {rsym_mul}")'},
+        {"file": T, "old": 'rhs[n_spec] += f" - {crate_sym}[{cidx}] * {rsym_mul}"', "new": 'rhsparts[n_spec].append(f" - {crate_sym}[{cidx}] * {rsym_mul}")'},
+        {"file": T, "old": '        lhs = [f"ydot[IDX_{x.alias}]" for x in species]\n', "new": '        rhs = ["".join(parts) for parts in rhsparts]\n        lhs = [f"ydot[IDX_{x.alias}]" for x in species]\n'}]},
+    {"name": "create-species-guard-clauses-set-lookup", "file": "naunet/component.py", "old": "        if species_name and species_name not in Species.known_pseudoelements():\n            return Species(species_name, **kwargs)\n\n        return None\n", "new": "        if not species_name:\n            return None\n        pseudo = frozenset(Species.known_pseudoelements())\n        if species_name in pseudo:\n            return None\n        return Species(species_name, **kwargs)\n"},
+    {"name": "loss-loop-guarded-by-nonempty-list", "file": T, "old": "            for specidx in rspecidx:\n                rhs[specidx] += f\" - {rate_sym}[{rl}]*{rsym_mul}\"\n", "new": "            if rspecidx:\n                for specidx in rspecidx:\n                    rhs[specidx] += f\" - {rate_sym}[{rl}]*{rsym_mul}\"\n"},
+    {"name": "species-slots-from-position-table", "edits": [
+        {"file": T, "old": '        rhs = ["0.0"] * n_eqns\n', "new": '        position = {s: i for i, s in enumerate(species)}\n        rhs = ["0.0"] * n_eqns\n'},
+        {"file": T, "old": "            rspecidx = [species.index(r) for r in react.reactants]\n            pspecidx = [species.index(p) for p in react.products]\n", "new": "            rspecidx = [position[r] for r in react.reactants]\n            pspecidx = [position[p] for p in react.products]\n"}]},
     {"name": "template-reindent", "file": TEMPLATES["cvode"], "old": "    {% for eq in ode.fex -%}\n        {{ eq | stmwrap(80, 8) }}", "new": "    {% for eq in ode.fex -%}\n      {{ eq|stmwrap(80, 6) }}"},
 ]
